@@ -144,6 +144,7 @@ class Checker:
             return self.undecided(str(err))
         except Exception as err:
             return self.undecided('engine crash: ' + repr(err) + ' ' + traceback.format_exc()[-800:].replace('\n', ' | '))
+        bounded_procs = self.start_bounded()
         obs = [it[2] for it in self.items]
         discharge(obs, [it[3] for it in self.items], timeout_ms=self.timeout,
                   second_backend=(self.tier == 'thorough'))
@@ -160,6 +161,7 @@ class Checker:
         if disagree:
             return self.undecided('back ends disagree (z3 unsat, cvc5 sat) on ' + ', '.join(disagree[:3]))
         violations = self.triage(failed) if failed else []
+        violations += self.finish_bounded(bounded_procs)
         known = self.known_findings()
         self.write_evidence(real, canary_report, vac, violations, known)
         if violations:
@@ -169,6 +171,42 @@ class Checker:
             # informational only: a code change can legitimately make a deliberately false clause true
             self.say('NOTE: canary clause now provable: ' + ', '.join(bad_canaries))
         return 0
+
+    # ------------------------------------------------------------------ bounded stand-ins
+    def start_bounded(self):
+        procs = []
+        for g in self.groups:
+            for b in g.bounded:
+                if self.prop not in b['props']:
+                    continue
+                cmd = [a.replace('{tier}', self.tier).replace('{repo}', self.repo) for a in b['cmd']]
+                env = dict(os.environ, PYTHONPATH='')
+                procs.append((b, subprocess.Popen(cmd, cwd=VERIF, stdout=subprocess.PIPE, stderr=subprocess.PIPE,
+                                                  text=True, env=env)))
+        return procs
+
+    def finish_bounded(self, procs):
+        violations = []
+        self.bounded_results = []
+        for b, p in procs:
+            out, err = p.communicate(timeout=3600)
+            try:
+                results = json.loads(out)
+            except Exception:
+                raise Unsupported(f"bounded stand-in {b['name']} crashed: {err[-400:]}")
+            for r in results:
+                r['label'] = 'bounded (not counted as proved)'
+                self.bounded_results.append(r)
+                if r['failures']:
+                    os.makedirs(os.path.join(VERIF, 'replays'), exist_ok=True)
+                    path = os.path.join(VERIF, 'replays', f"{self.prop}-bounded-{r['name']}.json")
+                    json.dump({'property': self.prop, 'bounded_check': r['name'], 'bound': r['bound'],
+                               'failures': r['failures'], 'examples': r['examples'], 'rerun': b['cmd']},
+                              open(path, 'w'), indent=1, default=str)
+                    self.say(f'VIOLATION property={self.prop} replay={path}')
+                    self.say(f"  bounded stand-in {r['name']}: {r['failures']} of {r['cases']} cases fail, e.g. {json.dumps(r['examples'][:1], default=str)[:300]}")
+                    violations.append({'obligation': 'bounded:' + r['name'], 'replay': path, 'confirmed': True})
+        return violations
 
     def undecided(self, reason):
         self.say(f'UNDECIDED property={self.prop} reason={reason}')
@@ -265,6 +303,10 @@ class Checker:
             if e.get('status') != 'known':
                 continue
             g = next((g for g in self.groups if g.name == e['group']), None)
+            if g is not None and e.get('native_finding'):
+                reqs.append({'group': g.name, 'finding': e['native_finding'], 'inputs': e['witness']})
+                idx.append(e)
+                continue
             c = next((c for c in g.contracts if c.key == e['function'] and c.variant == e.get('variant', '')), None) if g else None
             if c is None:
                 continue
@@ -298,7 +340,8 @@ class Checker:
         per = [{'name': it[2].name, 'path': it[2].path, 'backend': it[2].result['backend'],
                 'result': it[2].result['status'], 'ms': it[2].result['ms'],
                 **({'cvc5': it[2].result['cvc5']} if 'cvc5' in it[2].result else {})} for it in real]
-        assumptions, trusted, not_covered, bounded = [], [], [], []
+        assumptions, trusted, not_covered = [], [], []
+        bounded = getattr(self, 'bounded_results', [])
         for g in getattr(self, 'groups', []):
             assumptions += g.assumptions
             trusted += g.trusted
